@@ -58,8 +58,9 @@ def rot(cs, i):
     return cs[i:] + cs[:i]
 
 
-def hostile(rnd, tag, n=None, m=None, integer=False):
-    """One profile of hostile class `tag` (untied rankings). Returns (spec, m_hint)."""
+def hostile(rnd, tag, n=None, m=None, integer=False, big=1):
+    """One profile of hostile class `tag` (untied rankings). Returns (spec, m_hint).  big > 1 multiplies the electorate of
+    the 'quota' and 'coalition' classes (exact-quota structure at ~10^9..10^18 voters)."""
     n = n or rnd.randint(2, 6)
     cs = cands(rnd, n)
     wk = "int" if integer else rnd.choice(["int", "rat"])
@@ -90,7 +91,7 @@ def hostile(rnd, tag, n=None, m=None, integer=False):
             bl = [B(rot(cs, i), (10 - i) * w) for i in range(k - 1)] + [B(rot(cs, i), w) for i in range(k - 1, n)]
     elif tag == "quota":
         # integer profile where some tally equals the droop quota exactly / one below
-        tot = rnd.randint(4, 30)
+        tot = rnd.randint(4, 30) * big + (rnd.randint(0, m) if big > 1 else 0)
         T = tot // (m + 1) + 1
         first = T if rnd.random() < 0.5 else max(1, T - 1)
         rest = max(0, tot - first)
@@ -128,12 +129,17 @@ def hostile(rnd, tag, n=None, m=None, integer=False):
         k = rnd.randint(1, max(1, n - 1))
         S = cs[:k]
         others = cs[k:]
-        tot = rnd.randint(6, 40)
+        tot = rnd.randint(6, 40) * big + (rnd.randint(0, m) if big > 1 else 0)
         T = tot // (m + 1) + 1
         q = rnd.randint(1, max(1, min(m, tot // T)))
         ws = q * T - (0 if rnd.random() < 0.6 else 1)
         ws = min(max(ws, 1), tot)
         bl = []
+        if others and tot - ws >= T - 1 >= 1 and rnd.random() < 0.4:
+            # an outsider just below the quota (one vote short): must not be seated ahead of the coalition
+            o = rnd.choice(others)
+            bl.append(B([o] + rnd.sample([c for c in cs if c != o], rnd.randint(0, n - 1)), T - 1))
+            tot -= T - 1
         left = ws
         while left > 0:
             w = rnd.randint(1, left)
@@ -155,13 +161,102 @@ def hostile(rnd, tag, n=None, m=None, integer=False):
     return spec_profile(cs, bl), min(m, len(cs))
 
 
-def any_ranked(rnd, integer=False, maxn=6):
+BIGNAMES = NAMES + ["k%d" % i for i in range(1, 13)]
+W_HUGE = [F(10 ** 9), F(2 ** 53 + 1), F(10 ** 15 + 7), F(10 ** 18), F(10 ** 9 + 7), F(2 ** 53 - 1)]
+W_TINY = [F(1, 10 ** 9), F(1, 10 ** 12 + 39), F(3, 2 ** 60), F(7, 10 ** 9 + 7)]
+SCALE_P = 0.04  # share of beyond-hand-size profiles in the mixed generators
+
+
+def scale(rnd, integer=False, mode=None, maxmiss=None):
+    """Beyond-hand-size untied profile: 8..12 candidates (double-digit round numbers under single-winner counts), 30..80
+    ballots drawn around a few base orders so that transfers are long, weights plain / huge (>= 10^9, beyond 2^53) / tiny
+    (<= 10^-9).  Returns (spec, m)."""
+    n = rnd.randint(8, 12)
+    cs = rnd.sample(BIGNAMES, n)
+    nb = rnd.randint(30, 80)
+    mode = mode or rnd.choice(["plain", "plain", "huge", "tiny", "mixed"])
+    if integer and mode in ("tiny", "mixed"):
+        mode = "huge"
+    bases = [rnd.sample(cs, n) for _ in range(rnd.randint(2, 4))]
+
+    def w():
+        if mode == "plain":
+            return weight(rnd, "int" if integer else "mixed")
+        if mode == "huge":
+            return rnd.choice(W_HUGE) + (rnd.randint(0, 3) if rnd.random() < 0.5 else 0)
+        if mode == "tiny":
+            return rnd.choice(W_TINY) * rnd.randint(1, 5)
+        return rnd.choice(W_HUGE + W_TINY + [F(1), F(2), F(1, 3)])
+    bl = []
+    for _ in range(nb):
+        r = list(rnd.choice(bases))
+        for _ in range(rnd.randint(0, 3)):  # a few adjacent swaps
+            i = rnd.randrange(n - 1)
+            r[i], r[i + 1] = r[i + 1], r[i]
+        k = n if rnd.random() < 0.5 else rnd.randint(1, n)
+        if maxmiss is not None:
+            k = max(k, n - maxmiss)
+        bl.append(spec_ballot(r=[[c] for c in r[:k]], w=w()))
+    return spec_profile(cs, bl), rnd.choice([1, 1, 2, 3, 5, n - 1, n])
+
+
+MAGNIFY_P = 0.08
+BIG_W = [10 ** 9, 2 ** 53, 10 ** 15 + 1, 10 ** 17, 10 ** 18, 3 * 10 ** 9 + 7]
+GAP = F(1, 10 ** 20)
+
+
+def magnify(rnd, spec, mode=None):
+    """The same hand-sized profile at a magnitude where doubles no longer tell neighbours apart.  Exact ties of the small
+    profile either stay exact ('scale'), become differences of one unit in ~10^9..10^18 ('+1'), or stay ties at first-place
+    level while every lower-order score differs by one unit ('shift': one unit moved between two ballots with the same
+    first choice); 'gap' / 'gapshift' do the same with a difference of 10^-20 at unit magnitude.  Works on weights only, so
+    it applies to ranked and scored ballots alike."""
+    from .canon import pf, fs
+    mode = mode or rnd.choice(["scale", "+1", "+1", "shift", "shift", "gap", "gapshift"])
+    bl = [dict(b) for b in spec["ballots"]]
+    if not bl:
+        return spec
+    W = rnd.choice(BIG_W) if mode in ("scale", "+1", "shift") else 1
+    ws = [pf(b["w"]) * W for b in bl]
+    unit = F(1) if W > 1 else GAP
+
+    def first(b):
+        return tuple(b["r"][0]) if b.get("r") else tuple(sorted((b.get("s") or {}).items()))[:1]
+    if mode in ("+1", "gap"):
+        for _ in range(rnd.randint(1, 2)):
+            ws[rnd.randrange(len(ws))] += unit
+    elif mode in ("shift", "gapshift"):
+        groups = {}
+        for i, b in enumerate(bl):
+            groups.setdefault(first(b), []).append(i)
+        pairs = [g for g in groups.values() if len(g) >= 2]
+        if pairs:
+            g = rnd.choice(pairs)
+            i, j = rnd.sample(g, 2)
+            if ws[j] > unit:
+                ws[i] += unit
+                ws[j] -= unit
+        else:
+            ws[rnd.randrange(len(ws))] += unit
+    for b, w in zip(bl, ws):
+        b["w"] = fs(w)
+    return {"cands": list(spec["cands"]), "ballots": bl}
+
+
+def any_ranked(rnd, integer=False, maxn=6, scale_ok=True):
     """Mixture of uniform and hostile untied profiles; returns (spec, m, tag)."""
+    if scale_ok and maxn >= 6 and rnd.random() < SCALE_P:
+        p, m = scale(rnd, integer=integer)
+        return p, m, "scale"
+    if scale_ok and not integer and rnd.random() < MAGNIFY_P:
+        p, m, tag = any_ranked(rnd, integer=False, maxn=maxn, scale_ok=False)
+        return magnify(rnd, p), m, "magnified-" + tag
     if rnd.random() < 0.45:
         p = ranked(rnd, wkind="int" if integer else None, maxn=maxn)
         return p, rnd.randint(1, len(p["cands"])), "uniform"
     tag = rnd.choice(HOSTILE)
-    p, m = hostile(rnd, tag, n=rnd.randint(2, maxn), integer=integer)
+    big = rnd.choice(BIG_W) if (scale_ok and not integer and tag in ("quota", "coalition") and rnd.random() < 0.2) else 1
+    p, m = hostile(rnd, tag, n=rnd.randint(2, maxn), integer=integer, big=big)
     return p, m, tag
 
 
